@@ -343,6 +343,58 @@ def _cond_holds(t, cond, leaf):
     return v == cond[1] if cond[0] == "is" else v not in cond[1]
 
 
+def _reaching_def(body, pt, local, use_bb, use_idx, leaf, defs):
+    """The definition of `local` that reaches (use_bb, use_idx) for one valuation, in loop-free code: from the nearest
+    block dominating the use and all definitions, follow every test whose operand can be evaluated under the valuation
+    (both edges of the others); all paths arriving at the use must agree on the last definition."""
+    c = pt.c
+    dblocks = {d[0] for d in defs}
+    start = use_bb
+    idom = c.dominators()
+    while not all(c.dominates(start, x) for x in dblocks | {use_bb}):
+        if start == 0:
+            break
+        start = idom.get(start, 0)
+    bydef = {}
+    for d in defs:
+        bydef.setdefault(d[0], []).append(d)
+    found = set()
+    seen = set()
+    work = [(start, None)]
+    steps = 0
+    while work:
+        steps += 1
+        if steps > 4000:
+            raise NotEvaluable(("walk", local))
+        bb, last = work.pop()
+        if (bb, last) in seen:
+            continue
+        seen.add((bb, last))
+        for d in sorted(bydef.get(bb, ()), key=lambda x: x[1]):
+            if bb == use_bb and use_idx is not None and d[1] >= use_idx:
+                continue
+            last = (d[0], d[1])
+        if bb == use_bb:
+            found.add(last)
+            continue
+        blk = body.blocks[bb]
+        succ = [x for x in c.succ[bb] if use_bb in c.reachable_from(x) or x == use_bb]
+        if blk.term.k == "switch":
+            t = pt.at(bb, None).of_operand(blk.term.discr)
+            try:
+                v = int(eval_cmp(t, leaf)) if cmp_sides(t) else eval_term(t, leaf)
+                tgt = dict(blk.term.targets).get(v, blk.term.otherwise)
+                succ = [tgt] if (use_bb in c.reachable_from(tgt) or tgt == use_bb) else []
+            except (NotEvaluable, Overflow):
+                pass
+        for x in succ:
+            work.append((x, last))
+    if len(found) != 1 or None in found:
+        raise NotEvaluable(("ambiguous", local))
+    bb, i = next(iter(found))
+    return next(d for d in defs if d[0] == bb and d[1] == i)
+
+
 def eval_gated(body, pt, local, use_bb, leaf, use_idx=None, on_def=None):
     """Value of `local` as seen at (use_bb, use_idx) for one valuation of the inputs, in loop-free code: among the
     definitions of the local whose branch conditions hold under the valuation, the one latest in dominance order
@@ -400,7 +452,10 @@ def eval_gated(body, pt, local, use_bb, leaf, use_idx=None, on_def=None):
         elif (d[0] == best[0]) or c.dominates(d[0], best[0]):
             continue
         else:
-            raise NotEvaluable(("ambiguous", local))
+            # definitions in arms reached over several edges (e.g. `match x { 0..=3 => .., 4..=9 => .. }`): the dominance
+            # conditions do not separate them; select the reaching definition by following the evaluable tests instead
+            best = _reaching_def(body, pt, local, use_bb, use_idx, leaf, [d for d in defs])
+            break
     bb, i, s = best
     rv = s.rv
     if on_def is not None:
